@@ -42,7 +42,8 @@ def run(rep, props, replay=None):
     rng = np.random.default_rng([C.seed(), 18])
     runq = C.CoqRun("C18", IMPORTS, shard=6)
     todo = []
-    domains = [(0.0, 1.0), (-1.0, 1.0), (1.0, 365.0), (-2.0, 0.0), (100.0, 101.0), (-3.5, 0.25), (0.0, 2.5)]
+    domains = [(0.0, 1.0), (-1.0, 1.0), (1.0, 365.0), (-2.0, 0.0), (100.0, 101.0), (-3.5, 0.25), (0.0, 2.5),
+               (1000.0, 1001.0), (1990.0, 2020.0), (-4097.0, -4096.0), (1.7e9, 1.7e9 + 3600.0)]      # far from the origin
     for idx, (p, nf) in enumerate(bs_cases(rng, quick)):
         a, b = domains[idx % len(domains)]
         nseg = nf - p
@@ -51,6 +52,10 @@ def run(rep, props, replay=None):
         u = np.unique(np.concatenate([[0.0], inner, [1.0]]))
         if idx % 3 == 0:   # include knots themselves
             u = np.unique(np.concatenate([u, np.arange(nseg + 1) / nseg if nseg & (nseg - 1) == 0 else [0.5]]))
+        if idx % 3 != 1:   # points just before and just after the knots (a knot is "reached" only at the knot)
+            kn = np.arange(1, nseg + 1) / nseg
+            u = np.unique(np.concatenate([u, kn - 2.0 ** -12, kn[:-1] + 2.0 ** -12, kn - 2.0 ** -20]))
+            u = u[(u >= 0) & (u <= 1)]
         xs = a + (b - a) * u
         xs[0], xs[-1] = a, b
         if idx % 2 == 1 and len(xs) >= 5:
